@@ -4,6 +4,7 @@ import (
 	"bytes"
 	"fmt"
 	"math/rand/v2"
+	"os"
 	"strings"
 
 	"pvharness/pvcase"
@@ -567,6 +568,34 @@ func (cg *caseGen) deepRecoveryGrammar() {
 	cg.names = []string{"Doc", "Word", "Resync"}
 }
 
+// statsRecoveryGrammar: an INLINE recovery expression with a choice in it, its label thrown from two different rules:
+//
+//	S <- (A B A B) //{L} ("!" / "?" / [x-z])
+//	A <- "a" / %{L}
+//	B <- "b" / %{L}
+//
+// the recovery expression runs wherever the throw happens, so the rule on top of the rule stack - which names the choice in
+// Stats.ChoiceAltCnt - is A for one evaluation of the choice and B for the next (round 18, C18: a per-node cache of that name).
+func (cg *caseGen) statsRecoveryGrammar() {
+	cg.chCount = 0
+	cg.cur = 0
+	l := pickStr(cg.r, []string{"L1", "L2", "L3"})
+	thr := func() *pvcase.Expr { return &pvcase.Expr{Kind: pvcase.KThr, Label: l} }
+	rc := cg.newChoice()
+	rc.Kids = []*pvcase.Expr{cg.litOf("!"), cg.litOf("?"), mkClass(nil, []rune{'x', 'z'}, nil, false, false, cg.flags.BasicLatin)}
+	a := cg.newChoice()
+	a.Kids = []*pvcase.Expr{cg.litOf("a"), thr()}
+	b := cg.newChoice()
+	b.Kids = []*pvcase.Expr{cg.litOf("b"), thr()}
+	body := seqOf(refTo("A"), refTo("B"), refTo("A"), refTo("B")) // no repetition: a throw counts as nullable
+	cg.rules = []*pvcase.Rule{
+		{Name: "S", Expr: &pvcase.Expr{Kind: pvcase.KRec, Kids: []*pvcase.Expr{body, rc}, Labels: []string{l}}},
+		{Name: "A", Expr: a},
+		{Name: "B", Expr: b},
+	}
+	cg.names = []string{"S", "A", "B"}
+}
+
 // floodGrammar: S <- .* "never" (kind 1) or S <- A* "never" ; A <- "a" {error} (kind 2)
 func (cg *caseGen) floodGrammar(kind int) {
 	cg.chCount = 0
@@ -795,10 +824,11 @@ func (g *generator) genCase(prof string) ([]*pvcase.Case, *caseGen) {
 		o.Stats = g.chance(0.15)
 	}
 	divergent, lrBudget := false, false
-	flood := 0                                     // error flood under a budget: 1 = undecodable bytes, 2 = action errors
-	recFamily := prof == "throw" && g.chance(0.06) // recursive handlers with several labels (floodGrammar's sibling)
+	flood := 0                                                 // error flood under a budget: 1 = undecodable bytes, 2 = action errors
+	recFamily := prof == "throw" && g.chance(0.06)             // recursive handlers with several labels (floodGrammar's sibling)
 	deepRec := prof == "throw" && !recFamily && g.chance(0.03) // recovery expressions nested as deep as the input is long
-	memoFlood := prof == "memo" && g.chance(0.03)  // a re-parsed span with dozens of distinct code-block errors
+	statsRec := prof == "throw" && !recFamily && !deepRec && (g.chance(0.04) || (os.Getenv("PVGEN_FORCE") == "statsrec" && g.chance(0.7)))
+	memoFlood := prof == "memo" && g.chance(0.03) // a re-parsed span with dozens of distinct code-block errors
 	// a keyword table: dozens of different terminals tried at one offset (the expected set of a failure there lists all)
 	wide := (prof == "core" || prof == "utf8") && g.chance(0.03)
 	switch prof {
@@ -870,6 +900,8 @@ func (g *generator) genCase(prof string) ([]*pvcase.Case, *caseGen) {
 			cg.recHandlerGrammar()
 		case deepRec:
 			cg.deepRecoveryGrammar()
+		case statsRec:
+			cg.statsRecoveryGrammar()
 		case flood != 0:
 			cg.floodGrammar(flood)
 		case memoFlood:
@@ -959,6 +991,18 @@ func (g *generator) genCase(prof string) ([]*pvcase.Case, *caseGen) {
 			in += pickStr(g.r, []string{")", ")", ")", "Q)", ""})
 		}
 		c.Input = []byte(in)
+	}
+	if statsRec {
+		var in []byte
+		for n := 2; n > 0; n-- {
+			in = append(in, pickStr(g.r, []string{"a", "a", "!", "?", "y"})...)
+			in = append(in, pickStr(g.r, []string{"b", "b", "!", "?", "z", ""})...)
+		}
+		c.Input = in
+		o.MaxExpr = 0
+		if !fl.Optimize {
+			o.Stats = true
+		}
 	}
 	if deepRec {
 		// depths on both sides of every plausible cap (16, 32, 64, 100, 128)
